@@ -18,7 +18,7 @@ def _ids():
 
 
 def shape_nested(v):
-  """no regions (default region): body > div > p > [span 'A', br, span 'B' > span 'C']"""
+  """no regions (default region): body > div > p > [span 'A', br, span 'B &--' > span '> C']"""
   nid = _ids()
   d = m.ContentDocument()
   body = m.Body(d); body.set_id(nid()); d.set_body(body)
@@ -26,8 +26,8 @@ def shape_nested(v):
   p = m.P(d); p.set_id(nid()); div.push_child(p)
   s1 = m.Span(d); s1.set_id(nid()); p.push_child(s1); s1.push_child(m.Text(d, "A"))
   br = m.Br(d); br.set_id(nid()); p.push_child(br)
-  s2 = m.Span(d); s2.set_id(nid()); p.push_child(s2); s2.push_child(m.Text(d, "B"))
-  s3 = m.Span(d); s3.set_id(nid()); s2.push_child(s3); s3.push_child(m.Text(d, "C"))
+  s2 = m.Span(d); s2.set_id(nid()); p.push_child(s2); s2.push_child(m.Text(d, "B &--"))
+  s3 = m.Span(d); s3.set_id(nid()); s2.push_child(s3); s3.push_child(m.Text(d, "> C"))      # `--` and `>` in ADJACENT text nodes
   body.set_begin(v("bb")); body.set_end(v("be"))
   div.set_begin(v("db")); div.set_end(v("de"))
   p.set_begin(v("pb")); p.set_end(v("pe"))
@@ -72,10 +72,10 @@ def shape_display(v):
     p1.add_animation_step(m.DiscreteAnimationStep(SP.Display, v("ab"), v("ae"), sp.DisplayType.none))
   if v("a2b") is not None:
     p1.add_animation_step(m.DiscreteAnimationStep(SP.Display, v("a2b"), None, sp.DisplayType.auto))
-  s1 = m.Span(d); s1.set_id(nid()); p1.push_child(s1); s1.push_child(m.Text(d, " a  b "))
+  s1 = m.Span(d); s1.set_id(nid()); p1.push_child(s1); s1.push_child(m.Text(d, " a  b\u3000 "))       # U+3000 is not TTML white space: it stays, the blank after it is trimmed
   p2 = m.P(d); p2.set_id(nid()); p2.set_style(SP.Display, sp.DisplayType.none); div.push_child(p2)
   p2.add_animation_step(m.DiscreteAnimationStep(SP.Display, v("cb"), v("ce"), sp.DisplayType.auto))
-  s2 = m.Span(d); s2.set_id(nid()); s2.set_space(m.WhiteSpaceHandling.PRESERVE); p2.push_child(s2); s2.push_child(m.Text(d, " x "))
+  s2 = m.Span(d); s2.set_id(nid()); s2.set_space(m.WhiteSpaceHandling.PRESERVE); p2.push_child(s2); s2.push_child(m.Text(d, " x\u00a0 "))
   s3 = m.Span(d); s3.set_id(nid()); s3.set_begin(v("s3b")); p2.push_child(s3); s3.push_child(m.Text(d, "y"))
   return d
 
@@ -144,12 +144,14 @@ def shape_brset(v):
   s1 = m.Span(d); s1.set_id(nid()); p.push_child(s1); s1.push_child(m.Text(d, "A"))
   br = m.Br(d); br.set_id(nid()); br.set_style(SP.Color, sp.NamedColors.lime.value); p.push_child(br)
   br.add_animation_step(m.DiscreteAnimationStep(SP.Color, v("ab"), v("ae"), sp.NamedColors.red.value))
+  if v("hb") is not None or v("he") is not None:
+    br.add_animation_step(m.DiscreteAnimationStep(SP.Display, v("hb"), v("he"), sp.DisplayType.none))     # the line break itself is hidden for a while
   s2 = m.Span(d); s2.set_id(nid()); p.push_child(s2); s2.push_child(m.Text(d, "B"))
   return d
 
 
 def shape_twop(v):
-  """two paragraphs in one region: p1 [b1, e1), p2 [b2, e2) -- [1, 2) when b2/e2 are not symbolic; p1 holds 'Hello' <br/> 'you', p2 'World'"""
+  """two paragraphs in one region: p1 [b1, e1), p2 [b2, e2) -- [1, 2) when b2/e2 are not symbolic; p1 holds 'Hello' <br/> 'you', p2 'Wor<U+2028>ld<U+3000><U+00A0>!'"""
   from fractions import Fraction as F
   d = m.ContentDocument()
   r = m.Region("r1", d); d.put_region(r)
@@ -163,7 +165,7 @@ def shape_twop(v):
   if b2 is None and e2 is None:
     b2, e2 = F(1), F(2)
   p2 = m.P(d); p2.set_id("p2"); p2.set_region(r); p2.set_begin(b2); p2.set_end(e2); div.push_child(p2)
-  s2 = m.Span(d); s2.set_id("s2"); p2.push_child(s2); s2.push_child(m.Text(d, "World"))
+  s2 = m.Span(d); s2.set_id("s2"); p2.push_child(s2); s2.push_child(m.Text(d, "Wor\u2028ld\u3000\u00a0!"))     # LINE SEPARATOR, IDEOGRAPHIC SPACE, NBSP: ordinary characters in TTML
   return d
 
 
@@ -296,7 +298,7 @@ MASKS = {
   "moving": [("ab", "ae"), ("ob", "oe")],
   "styled": [("ab", "ae"), ("pe", "ab")],
   "twop": [("b1", "e1"), ("e1", "b2"), ("b1", "e2")],
-  "brset": [("pb", "pe", "ab", "ae"), ("ab", "ae"), ("pe", "ab")],
+  "brset": [("pb", "pe", "ab", "ae"), ("ab", "ae"), ("pe", "ab"), ("hb", "he"), ("pb", "hb", "he")],
   "rubyparts": [("rtb", "rte", "pb"), ("rbb", "rbe", "rtb"), ("rtcb", "rtce", "rt2b"), ("rp1e", "rt2b", "rt2e"), ("pe", "rte", "rbe", "rtce")],
   "nested": [("bb", "be", "pb", "pe"), ("db", "de", "s1b", "s1e"), ("pb", "pe", "s3b", "s3e"), ("be", "de", "pe", "s1e", "s3e"), ("bb", "db", "pb", "s1b", "s3b"),
              ("s1b", "s3b", "s3e"), ("db", "s1e", "s3e")],
